@@ -23,10 +23,10 @@ def queries(tier):
         qs.append(Query(name="reldist_copy%d" % c, harness="C22/rd_copy.c", defines=["COPY=%d" % c],
                         funcs=[f], bound="bits 1..8, all a,b in [0,2^bits), enable flag both ways",
                         what="relative distance == signed (a-b) mod 2^bits, in range, no UB", timeout=300))
-    qs.append(Query(name="skip_mode_shift_invariance", harness="C22/skipmode.c", gen=gen, unwind=9, timeout=900,
+    qs.append(Query(name="skip_mode_wrap", harness="C22/skipmode.c", gen=gen, unwind=9, timeout=900,
                     funcs=["Source/Lib/Encoder/Codec/EbPictureDecisionProcess.c:svt_av1_setup_skip_mode_allowed", COPIES[3]],
-                    bound="7 references at distances -63..63, any picture number, any common shift < 2^16 (wraps of the 2^7 period included)",
-                    what="skip-mode reference selection depends only on distances (correct across order-hint wrap)"))
+                    bound="7 references at true distances -63..63, current picture at every residue of the 2^7 period (4 periods)",
+                    what="skip-mode reference pair equals the spec selection on true distances at every position of the order-hint period"))
     qs.append(Query(name="tu_count_queue_wrap", harness="C22/tucount.c", gen=gen, unwind=10, timeout=600,
                     funcs=["Source/Lib/Encoder/Codec/EbPacketizationProcess.c:count_frames_in_next_tu", "Source/Lib/Encoder/Codec/EbPacketizationProcess.c:get_reorder_queue_entry"],
                     bound="queue depth macro scaled 2048 -> 8; every head position, every presence/shown pattern", what="temporal-unit frame count computed modulo the queue depth"))
